@@ -10,8 +10,12 @@
      env                everything computed from (transaction, consensus parameters, storage): arbitrary functions
      init_script E v t ib / init_predicate E v c t g   initialization.rs on the instance v (any contents)
      vm_fresh / predicate_vm                           Interpreter::with_storage_and_ecal around a given memory
-     same_config a b    the fields initialisation does not touch are equal: storage, debugger, interpreter_params,
-                        pctx (panic context), ecal_state, verifier
+     same_config E a b  agreement on what initialisation does not reset: storage, interpreter_params, pctx (panic
+                        context), ecal_state, verifier equal, and the debuggers equal UP TO their last state
+                        (clear_last_state E (debugger a) = clear_last_state E (debugger b)): init_inner calls
+                        Debugger::clear_last_state (repair 22c6df9 of finding F9)
+     untouched E v v'   v' has v's storage, parameters, panic context, ecal state, verifier, and v's debugger with its
+                        last state forgotten
      obs_eq a b         every field equal, except that of the memory only the accessible part is compared: the stack
                         buffer, hp, and the heap bytes at addresses >= hp
      res_obs_eq         both Ok with obs_eq states, or both the same error, or both a failed `expect`
@@ -29,30 +33,32 @@ Theorem C31_init :
   forall (H Tx Params Storage Debugger Frame Receipt IB RB C Ecal Verifier Slot : Type)
          (E : env Tx Params Storage Debugger IB RB C Verifier) (heap_read : H -> N -> N)
          (v1 v2 : vm H Tx Params Storage Debugger Frame Receipt IB RB C Ecal Verifier Slot) (t : Tx) (ib : IB),
-    same_config v1 v2 -> res_obs_eq heap_read (init_script E v1 t ib) (init_script E v2 t ib).
+    same_config E v1 v2 -> res_obs_eq heap_read (init_script E v1 t ib) (init_script E v2 t ib).
 Proof. exact init_script_reuse. Qed.
 Print Assumptions C31_init.
 
-(* ... in particular a used instance whose debugger is inactive-as-new, whose panic context has been
-   consumed and whose verifier is stateless initialises like a brand-new instance over the same
-   storage, whatever memory m0 the new instance is given. *)
+(* ... in particular a used instance whose debugger is configured as a new one's (whatever last
+   state an abandoned session left in it), whose panic context has been consumed and whose verifier
+   is stateless initialises like a brand-new instance over the same storage, whatever memory m0 the
+   new instance is given. *)
 Theorem C31_init_vs_fresh :
   forall (H Tx Params Storage Debugger Frame Receipt IB RB C Ecal Verifier Slot : Type)
          (E : env Tx Params Storage Debugger IB RB C Verifier) (heap_read : H -> N -> N)
          (v : vm H Tx Params Storage Debugger Frame Receipt IB RB C Ecal Verifier Slot) (m0 : memory H) (t : Tx) (ib : IB),
-    debugger v = debugger_default E -> pctx v = PCNone -> verifier v = verifier_default E ->
+    clear_last_state E (debugger v) = clear_last_state E (debugger_default E) -> pctx v = PCNone -> verifier v = verifier_default E ->
     res_obs_eq heap_read (init_script E v t ib)
       (init_script E (vm_fresh Frame Receipt Slot E m0 (storage v) (interpreter_params v) (ecal_state v)) t ib).
 Proof. exact init_script_vs_fresh. Qed.
 Print Assumptions C31_init_vs_fresh.
 
 (* What initialisation does NOT reset (so `same_config` is a real side condition): storage,
-   debugger incl. its last state, parameters, panic context, ecal state, verifier. *)
+   parameters, panic context, ecal state, verifier, and the debugger's configuration — but its last
+   state IS forgotten (debugger v' = clear_last_state (debugger v)). *)
 Theorem C31_untouched :
   forall (H Tx Params Storage Debugger Frame Receipt IB RB C Ecal Verifier Slot : Type)
          (E : env Tx Params Storage Debugger IB RB C Verifier)
          (v v' : vm H Tx Params Storage Debugger Frame Receipt IB RB C Ecal Verifier Slot) (t : Tx) (ib : IB),
-    init_script E v t ib = IOk v' -> same_config v v'.
+    init_script E v t ib = IOk v' -> untouched E v v'.
 Proof. exact init_script_untouched. Qed.
 Print Assumptions C31_untouched.
 
@@ -78,7 +84,7 @@ Theorem C31_transact :
                  vm H Tx Params Storage Debugger Frame Receipt IB RB C Ecal Verifier Slot + Res),
     step_respects_obs heap_read step ->
     forall (n : nat) (v1 v2 : vm H Tx Params Storage Debugger Frame Receipt IB RB C Ecal Verifier Slot) (t : Tx) (ib : IB),
-      same_config v1 v2 -> transact E step n v1 t ib = transact E step n v2 t ib.
+      same_config E v1 v2 -> transact E step n v1 t ib = transact E step n v2 t ib.
 Proof. exact transact_reuse. Qed.
 Print Assumptions C31_transact.
 
